@@ -56,6 +56,19 @@ def construction(ctx, eng, ce):
                  info={"replay": lambda c, pr, o, res: construction_replay(c, pr, o, res, rom)})
     for tn, vs in viol_valid.items():
         lem.add("lemma:construction:%s-satisfies-its-invariant" % tn, z3.Or(*vs))
+    # the controller kind is the documented function of the header's cartridge type byte (0147)
+    KIND = {"none": [0x00], "mbc1": [0x01, 0x02, 0x03], "mbc2": [0x05, 0x06], "mbc3": [0x0f, 0x10, 0x11, 0x12, 0x13],
+            "mbc5": [0x19, 0x1a, 0x1b, 0x1c, 0x1d, 0x1e]}
+    try:
+        ct = ce.ev.eval(vsl.parse("rom[0x147]"), {"rom": vsl.TV(rom, ce.ev.ty_of(f.params[0]["t"]))}, st, st).v
+        wrong = []
+        for (s, v) in outs:
+            if isinstance(v, Iface) and v.t is not None:
+                tn = ctx.prog.tname(v.t).replace("*memory.", "")
+                wrong.append(z3.And(s.pcond(), z3.Not(z3.Or(*[ct == c for c in KIND.get(tn, [])]))))
+        lem.add("lemma:construction:controller-kind-follows-the-header-type-byte", z3.Or(*wrong) if wrong else z3.BoolVal(True))
+    except Exception as ex:
+        lem.add("lemma:construction:controller-kind-follows-the-header-type-byte", z3.BoolVal(True), info={"detail": "not evaluable: %s" % ex})
     missing = set(mc.MBC_VALID) - set(kinds)
     lem.add("lemma:construction:all-five-controllers-constructible", z3.BoolVal(bool(missing)), info={"detail": "kinds %s" % kinds})
     # loop obligations raised inside prepareROM / prepareRAM
